@@ -199,9 +199,14 @@ Definition value_info (p : prog) (mode : option bool) (s : scope) (v : var) : re
 Definition req := list (string * nat).
 Definition req_eqb (a b : string * nat) := String.eqb (fst a) (fst b) && Nat.eqb (snd a) (snd b).
 Definition INTERNAL_MIN_OPSET := 14.
+(* the result identity of a graph: Identity accepts OPTIONAL values only from opset 16 on (the reflector renders an Optional type
+   as "opt(...)") *)
+Definition is_optional (t : tinfo) : bool := String.prefix "opt(" (tshow t).
+Definition intro_version (p : prog) (g : nat) : nat :=
+  if existsb (fun kv => match vty p (snd kv) with Some t => is_optional t | None => false end) (gres (getg p g)) then 16 else INTERNAL_MIN_OPSET.
 Definition node_req (p : prog) (u : nref) : req :=
   match u with
-  | NIntro _ => [("", INTERNAL_MIN_OPSET)]
+  | NIntro g => [("", intro_version p g)]
   | NReal n => match kind (getn p n) with
                | KArg | KInit => []
                | KInline _ imps => (imps ++ [("", INTERNAL_MIN_OPSET)])%list
